@@ -202,6 +202,8 @@ Section Wf.
   | DCanon (c : canon_drive)
   | DPar (l r : dts)
   | DFold (id : N) (gs : gens)
+  | DGens (us : list (N * N))   (* update_generation calls made while the run goes on: Streams::meet_scope_end
+                                   compacts a `new`-scoped stream when its scope ends *)
   with dts :=
   | DNil
   | DCons (d : dt) (ds : dts)
@@ -280,6 +282,13 @@ Section Wf.
     if chk && negb (is_stream_at (result_trace C h) p) then Err NoStreamState
     else meet_iteration_start C h id p.
 
+  (* a failing update is left without effect (as `step` of HandlerCases.v; the executor aborts the run) *)
+  Fixpoint drive_updates (us : list (N * N)) (h : handler) : handler :=
+    match us with
+    | [] => h
+    | (p, g) :: r => drive_updates r (match update_generation C h p g with inl h1 => h1 | inr _ => h end)
+    end.
+
   Section Drive.
   Variable chk : bool.
   Fixpoint drive_dt (d : dt) (h : handler) {struct d} : res handler :=
@@ -297,6 +306,7 @@ Section Wf.
         do h1 <- meet_fold_start C h id;
         do h2 <- drive_gens id gs h1;
         meet_fold_end C h2 id
+    | DGens us => Ok (drive_updates us h)
     end
   with drive_dts (ds : dts) (h : handler) {struct ds} : res handler :=
     match ds with
@@ -390,7 +400,7 @@ Section Wf.
 End Wf.
 
 Arguments CallAuto {C}. Arguments CallRaw {C}. Arguments CanonAuto {C}. Arguments CanonRaw {C}.
-Arguments DCall {C}. Arguments DAp {C}. Arguments DCanon {C}. Arguments DPar {C}. Arguments DFold {C}.
+Arguments DCall {C}. Arguments DAp {C}. Arguments DCanon {C}. Arguments DPar {C}. Arguments DFold {C}. Arguments DGens {C}.
 Arguments DNil {C}. Arguments DCons {C}. Arguments GNil {C}. Arguments GCons {C}.
 Arguments BPlain {C}. Arguments BHole {C}.
 Arguments HNextMore {C}. Arguments HNextEnd {C}. Arguments HParL {C}. Arguments HParR {C}.
